@@ -1,4 +1,4 @@
-import Mainchain.Lemmas.EntBooksReach
+import Mainchain.Lemmas.BankTotalReach
 /-
 C02 — Native coin supply changes only through approved purchase orders.
 
@@ -10,6 +10,11 @@ correspondence harness).
 namespace Mainchain
 namespace C02
 open AL Bank
+
+def C02ex : GenCfg :=
+  { timeSec := 1700000000,
+    accts := [{ id := 0, exists_ := true, balance := [{ denom := "atoken", amt := 7 }, { denom := "nund", amt := 1000 }], vest := none },
+              { id := 1, exists_ := true, balance := [{ denom := "nund", amt := 500 }], vest := none }] }
 
 /-- The recorded supply changes in exactly one kind of elementary step: the completion of an accepted
 purchase order during BeginBlock, and then by exactly that order's amount in the enterprise
@@ -61,6 +66,13 @@ theorem c02_supply_changes_only_by_completion (g : GenCfg) (hg : GenBooksValid g
     exact ⟨id, po, hf, hst, hD, hf'', hsup⟩
   | tally id e _ hs => subst hs; exact Or.inl (fun _ => rfl)
 
+/-- **Σ balances = supply.**  In every state of every run (in particular at every block boundary) the sum
+over all accounts of the balances in a denomination equals the recorded supply of that denomination, for
+every denomination. -/
+theorem c02_balances_sum_to_supply (g : GenCfg) (hg : GenBooksValid g) (hb : Balanced (initState g).bank) (s : State)
+    (h : FineReach g (BooksQ g.ent.denom) s) (d : String) : (s.bank.totalOf d : Int) = s.bank.supplyOf d :=
+  balanced_reachable g hg hb s h d
+
 /-- the bank's `MintCoins` is called at exactly one place in the application code that `NewApp`
 reaches: `MintCoinsAndLock` of x/enterprise (the second call site is the test helper
 `initAccountWithCoins`); nothing calls `BurnCoins`; no x/mint module is wired; only the enterprise and
@@ -83,6 +95,9 @@ theorem c02_mint_adds_exactly (D : String) (y y' : EB) (now : Int) (a : Addr) (c
     (∀ a' d', (y'.bank.balOf a' d' : Int) = y.bank.balOf a' d' + (if a' = Ment ∧ d' = D then c.amt else 0)) := by
   obtain ⟨h1, _, _, _, _, _, _, _, hbal, hsup, _⟩ := mintAndLock_spec D y y' now a c hc hokL htl hbank hnv h
   exact ⟨h1, hsup, hbal⟩
+
+-- non-vacuity: a concrete scenario genesis is balanced
+example : ∀ d ∈ ["nund", "atoken"], ((initState C02ex).bank.totalOf d : Int) = (initState C02ex).bank.supplyOf d := by decide
 
 end C02
 end Mainchain
